@@ -277,6 +277,8 @@ def gen_chain(rng, tier):
                 add(bt, 1, lt, [matured + (NONFINAL,)])
             add(bt, 1, cutoff, [matured + (FINAL,), ("f", 1, NONFINAL)])
             add(bt, 1, cutoff, [matured + (FINAL,), ("f", 1, FINAL)])
+            if bt != bts[0] and tier == "quick":
+                continue          # the block's own time only matters for the absolute locktime rule
             # maturity: depths 100, 99, 98 and the youngest coinbases
             for k in (E + 1, E + 2, E + 3, 100, 100 + E):
                 add(bt, 2, 0, [("c", k, FINAL)])
